@@ -43,7 +43,7 @@ def jobs_for(ctx):
         if rng.random() < 0.15:
             train[0] = rng.choice(extra)
         test = [rng.choice(S + extra) for _ in range(rng.randint(1, 2))]
-        jobs.append(dict(train=train, test=test, cfg=cfg))
+        jobs.append(dict(train=train, test=test, cfg=cfg, reuse=len(jobs) % 3 == 1))
     return jobs
 
 
